@@ -313,12 +313,12 @@ _IMPL = {}
 
 
 def _impl_worker(args):
-    modname, cid, inp_s, timeout = args
+    modname, cname, inp_s, timeout = args
     import importlib
     if modname not in _IMPL:
         _IMPL[modname] = importlib.import_module(modname)
     mod = _IMPL[modname]
-    comp = next(c for c in mod.COMPONENTS if c.cid == cid)
+    comp = next(c for c in mod.COMPONENTS if c.name == cname)     # names are unique, model ids need not be
     inp = sx.loads(inp_s)
     signal.signal(signal.SIGALRM, _alarm)
     signal.alarm(timeout)
@@ -336,7 +336,7 @@ def _impl_worker(args):
 
 
 def run_impl(modname, comp, inputs, parallel=True):
-    args = [(modname, comp.cid, s, comp.timeout) for s in inputs]
+    args = [(modname, comp.name, s, comp.timeout) for s in inputs]
     if not parallel or len(args) < 64:
         return [_impl_worker(a) for a in args]
     with Pool(NCPU) as pool:
@@ -653,7 +653,8 @@ def replay(path):
     if "module" in r and "input" in r:
         build_all()
         mod = importlib.import_module(r["module"])
-        comp = next(c for c in mod.COMPONENTS if c.cid == r["component_id"])
+        comp = next((c for c in mod.COMPONENTS if c.name == r.get("component")),
+                    None) or next(c for c in mod.COMPONENTS if c.cid == r["component_id"])
         rep = Report(r.get("property", "C00"), "quick", 0)
         rs, ms, o = rep._eval_one(r["module"], comp, sx.loads(r["input"]))
         m = run_model(comp.cid, [ms])[0]
